@@ -629,7 +629,7 @@ func (P *Prog) checkProviderTagTable(r *Result) {
 		}
 	}
 	// zjson.Decode: NewMapDataProvider(m, &jsonTag)
-	if fn := P.fn("zog/parsers/zjson.Decode$1"); fn != nil {
+	if fn := returnedClosure(P.fn("zog/parsers/zjson.Decode")); fn != nil {
 		r.sawFunc(fname(fn))
 		found := false
 		eachInstr(fn, func(_ *ssa.BasicBlock, _ int, in ssa.Instruction) {
@@ -665,7 +665,7 @@ func (P *Prog) checkProviderTagTable(r *Result) {
 	}
 	// zhttp: form(r.Form, &formTag), form(r.URL.Query(), &queryParam)
 	for _, name := range []string{"zog/zhttp.Config.Parsers.Form(func)$1", "zog/zhttp.Config.Parsers.Query(func)$1"} {
-		fn := P.fn(name)
+		fn := returnedClosure(P.fn(strings.TrimSuffix(name, "$1")))
 		wantTag := "form"
 		if strings.Contains(name, "Query") {
 			wantTag = "query"
@@ -701,84 +701,65 @@ func (P *Prog) checkGetByFieldAgreement(r *Result, rule string) {
 		}
 		r.sawFunc(fname(fn))
 		c := fname(fn)
-		recv := ssa.Value(fn.Params[0])
-		var keyCall *ssa.Call
-		tagOK := false
-		eachInstr(fn, func(_ *ssa.BasicBlock, _ int, in ssa.Instruction) {
-			c2, ok := in.(*ssa.Call)
-			if !ok {
-				return
-			}
-			ci := callOf(c2)
-			if ci.static != nil && ci.static.Name() == "GetKeyFromField" && len(c2.Call.Args) == 3 {
-				keyCall = c2
-				if cv(c2.Call.Args[0]) != ssa.Value(fn.Params[1]) || cv(c2.Call.Args[1]) != ssa.Value(fn.Params[2]) {
-					return
-				}
-				t := cv(c2.Call.Args[2])
-				if b, f := loadOfField(t); f != nil && f.Name() == "tag" && (cv(b) == recv || allocHolds(b, recv)) {
-					tagOK = true
-				}
-				if fl, ok := t.(*ssa.Field); ok {
-					if _, f := fieldVar(fl); f != nil && f.Name() == "tag" {
-						tagOK = true
-					}
-				}
-				if _, isG := t.(*ssa.Global); isG {
-					tagOK = true
-				}
-			}
-		})
-		if keyCall == nil {
-			// the empty provider: returns (nil, fallback)
-			okEmpty := false
-			eachInstr(fn, func(_ *ssa.BasicBlock, _ int, in ssa.Instruction) {
-				if rt, ok := in.(*ssa.Return); ok && len(rt.Results) == 2 && isNilConst(rt.Results[0]) && cv(rt.Results[1]) == ssa.Value(fn.Params[2]) {
-					okEmpty = true
-				}
-			})
-			if okEmpty {
-				r.ok(rule, c, P.pos(fn.Pos()), "empty provider: (nil, fallback)")
-			} else {
-				r.bad(rule, c, P.pos(fn.Pos()), "GetByField neither resolves the key with GetKeyFromField nor returns (nil, fallback)")
-			}
+		if len(fn.Params) != 3 {
+			r.undecided(rule, c, P.pos(fn.Pos()), "unexpected signature")
 			continue
 		}
-		// every return is (recv.Get(key), key)
-		okRet := true
-		nRet := 0
-		eachInstr(fn, func(_ *ssa.BasicBlock, _ int, in ssa.Instruction) {
-			rt, ok := in.(*ssa.Return)
-			if !ok || len(rt.Results) != 2 {
-				return
+		// the canonical formula of every return (helpers entered, method values resolved):
+		//   (<own type>.Get(recv, K), K)  with  K = GetKeyFromField(field, fallback, <own tag>)
+		sh := P.predicateShapeNamed(fn, map[ssa.Value]string{fn.Params[0]: "recv", fn.Params[1]: "field", fn.Params[2]: "fallback"})
+		if len(sh.problems) > 0 || len(sh.paths) == 0 {
+			r.undecided(rule, c, P.pos(fn.Pos()), "GetByField has an unrecognised shape: "+strings.Join(sh.problems, "; "))
+			continue
+		}
+		recvT := strings.ReplaceAll(fn.Signature.Recv().Type().String(), "github.com/Oudwins/", "")
+		getName := "(" + recvT + ").Get"
+		var rets []string
+		empty, keyed, tagOK, okRet := 0, 0, true, true
+		for _, p := range sh.paths {
+			rets = append(rets, strings.Join(p.conds, " ∧ ")+" ⇒ "+p.ret)
+			if p.ret == "(nil, fallback)" && len(p.conds) == 0 {
+				empty++
+				continue
 			}
-			nRet++
-			if cv(rt.Results[1]) != ssa.Value(keyCall) {
+			keyed++
+			const kpre = "zog/internals.GetKeyFromField(field, fallback, "
+			i := strings.Index(p.ret, kpre)
+			if i < 0 {
 				okRet = false
-				return
+				continue
 			}
-			g, ok := cv(rt.Results[0]).(*ssa.Call)
-			if !ok {
+			j := i + len(kpre)
+			depth, k := 1, j
+			for k < len(p.ret) && depth > 0 {
+				switch p.ret[k] {
+				case '(':
+					depth++
+				case ')':
+					depth--
+				}
+				k++
+			}
+			key := p.ret[i:k]
+			tag := p.ret[j : k-1]
+			if tag != "recv.tag" && !strings.HasPrefix(tag, "&@") {
+				tagOK = false
+			}
+			if p.ret != "("+getName+"(recv, "+key+"), "+key+")" {
 				okRet = false
-				return
 			}
-			gi := callOf(g)
-			if gi.static != nil && gi.static.Name() == "Get" && len(gi.args()) == 2 && cv(gi.args()[1]) == ssa.Value(keyCall) &&
-				(cvi(gi.args()[0]) == recv || sameNamed(namedOf(gi.static.Signature.Recv().Type()), namedOf(fn.Signature.Recv().Type()))) {
-				return
-			}
-			okRet = false
-		})
-		if nRet == 0 {
-			okRet = false
 		}
 		switch {
+		case keyed == 0 && empty > 0:
+			r.ok(rule, c, P.pos(fn.Pos()), "empty provider: (nil, fallback)")
+		case keyed == 0:
+			r.bad(rule, c, P.pos(fn.Pos()), "GetByField neither resolves the key with GetKeyFromField nor returns (nil, fallback)", rets...)
 		case !tagOK:
-			r.bad(rule, c, P.ipos(keyCall), "GetByField does not resolve the key with (field, fallback, the provider's own tag)")
-		case !okRet:
-			r.bad(rule, c, P.ipos(keyCall), "not every return of GetByField is (own Get(key), that same key): this provider resolves some fields differently from the others")
+			r.bad(rule, c, P.pos(fn.Pos()), "GetByField does not resolve the key with (field, fallback, the provider's own tag)", rets...)
+		case !okRet || empty > 0:
+			r.bad(rule, c, P.pos(fn.Pos()), "not every return of GetByField is (own Get(key), that same key): this provider resolves some fields differently from the others", rets...)
 		default:
-			r.ok(rule, c, P.ipos(keyCall), "key := GetKeyFromField(field, fallback, own tag); return Get(key), key")
+			r.ok(rule, c, P.pos(fn.Pos()), "key := GetKeyFromField(field, fallback, own tag); return Get(key), key")
 		}
 	}
 }
